@@ -1031,3 +1031,49 @@ m('c18-child-piece', ['C18'],
   (M, "            self.gamma_space = parent.gamma_space\n        else:\n            assert levels == (0, 0)",
    "            self.gamma_space = None\n        else:\n            assert levels == (0, 0)"),
   rule='R-inherit')
+
+# ---- C16 ------------------------------------------------------------------
+m('c16-revert-f2-isclose', ['C16', 'C08'],
+  (IM, """                        if isclose(va[n_axis, 0], v0[n_axis, 0]) and isclose(
+                                v1[n_axis, 0], vb[n_axis, 0]):""",
+   """                        if isclose(va[n_axis], v0[n_axis]) and isclose(
+                                v1[n_axis], vb[n_axis]):"""), rule='R-scalar')
+m('c16-revert-f2-flatten', ['C16', 'C08'],
+  (IM, "        xy = np.array(xy).flatten()\n", ""), rule='R-scalar')
+m('c16-child-vertex', ['C16'],
+  (IM, "            Element(vertices=[vi, v12, v2, v23], parent=element),",
+   "            Element(vertices=[vi, v12, v2, v3], parent=element),"),
+  rule='R-quad-children')
+m('c16-no-remove', ['C16'],
+  (IM, "        self.leaf_elements.remove(element)\n", ""), rule='R-quad-book')
+m('c16-reuse-key', ['C16'],
+  (IM, "        if (b, a) in self.__bisect_edge:\n            new_vtx = self.__bisect_edge[(b, a)]",
+   "        if (a, b) in self.__bisect_edge:\n            new_vtx = self.__bisect_edge[(a, b)]"),
+  rule='R-vreuse')
+m('c16-balance-level', ['C16'],
+  (IM, "                    assert self.nbrs[(pb, pa)].level == element.level - 1",
+   "                    assert self.nbrs[(pb, pa)].level == element.level"),
+  rule='R-closure')
+m('c16-balance-no-recursion', ['C16'],
+  (IM, "                    self.refine(self.nbrs[(pb, pa)])\n", "                    pass\n"),
+  rule='R-closure')
+m('c16-parent-edge', ['C16'],
+  (IM, "        self.parent_edge[(new_vtx, b)] = (a, b)", "        self.parent_edge[(new_vtx, b)] = (b, a)"),
+  rule='R-register')
+m('c16-contain-one-sided', ['C16'],
+  (IM, """                    if va[n_axis] - eps * abs(va[n_axis]) <= v0[n_axis] <= v1[
+                            n_axis] <= vb[n_axis] + eps * abs(vb[n_axis]):""",
+   """                    if va[n_axis] - eps * abs(va[n_axis]) <= v0[n_axis] <= v1[
+                            n_axis]:"""), rule='R-contain')
+m('c16-coincide-crossed', ['C16'],
+  (IM, """                        if isclose(va[n_axis, 0], v0[n_axis, 0]) and isclose(
+                                v1[n_axis, 0], vb[n_axis, 0]):""",
+   """                        if isclose(va[n_axis, 0], v1[n_axis, 0]) and isclose(
+                                v0[n_axis, 0], vb[n_axis, 0]):"""), rule='R-contain')
+m('c16-no-sort', ['C16'],
+  (IM, "        if tuple(v0.flatten()) > tuple(v1.flatten()): v0, v1 = v1, v0\n", ""),
+  rule='R-contain')
+m('c16-interior-vertex', ['C16'],
+  (IM, "        vi = Vertex(x=(v0.x + v2.x) / 2,\n                    y=(v0.y + v2.y) / 2,",
+   "        vi = Vertex(x=(v0.x + v1.x) / 2,\n                    y=(v0.y + v2.y) / 2,"),
+  rule='R-quad-children')
